@@ -20,6 +20,7 @@ EXPLANATION = (
     "index is in bounds. R7: unknown trap vectors reach exit(0xEE) without a state write; opcode 0xD is gated (C18.R3). "
     "R8: condition codes N/Z/P come from the signed comparison with zero and share their bit values with the encoder's BR mask."
     ' R1 reads the opcode dispatch as a 16-entry table or as a 16-arm match. R8 is decided on all 65,536 result words, and additionally requires that below execute only set_flags writes the condition code and that every CC-setting handler hands set_flags the word it stores in DR.'
+    " R5 judges the 0xD handler with its two stack helpers written in; a register named by an instruction field may alias one named by a constant (reads of R7 after a store to a field-named register are reported, two constant-named accesses are the handler's own bookkeeping)."
 )
 NOT_DECIDED = ("the numerical result of each instruction on each state (the sign-extension helper's arithmetic is trusted through "
                "the repository's own width-exhaustive unit test; R2 checks its call-site widths); RTI is outside the claim")
